@@ -215,13 +215,14 @@ def _fits(parts: list, e: dict, dims: tuple) -> bool:
     return len(set(parts)) == len(parts) and set(req) <= set(parts) <= set(req) | opt
 
 
-def check_dataset(data: dict, ds, inputs: dict, ref: dict, out: Outcome) -> None:
+def check_dataset(data: dict, ds, inputs: dict, ref: dict, out: Outcome, only: set | None = None) -> None:
+    """`only`: the dataset was loaded for these output names; the promises are checked for them alone."""
     prog = data["prog"]
     li = data["load_intermediate"]
     prod = mp.func_of_output(prog)
-    names = mp.output_names(prog)
-    exp = expectations(prog, li)
-    exp_li = expectations(prog, True)
+    names = [o for o in mp.output_names(prog) if only is None or o in only]
+    exp = {o: e for o, e in expectations(prog, li).items() if only is None or o in only}
+    exp_li = {o: e for o, e in expectations(prog, True).items() if only is None or o in only}
 
     def source(n):
         return inputs[n] if n in inputs else ref[n]
@@ -454,6 +455,22 @@ def body(data) -> Outcome:
             out.units += sub.units
             seen_labels |= set(sub.labels)
         out.labels += sorted(seen_labels)
+        # selecting outputs by name: the dataset loaded for one output keeps every promise for that output
+        if ds2 is not None and not out.failures:
+            for o in mp.output_names(prog):
+                sub = Outcome()
+                try:
+                    one = load_xarray_dataset(o, run_folder=folder, load_intermediate=li)
+                    check_dataset(data, one, inputs, ref, sub, only={o})
+                except Exception as e:
+                    sub.fail(f"raised:{type(e).__name__}", exc_detail(e))
+                for f in sub.failures:
+                    out.fail("load-by-name:" + f.bucket, f"load_xarray_dataset({o!r}): {f.detail}")
+                out.units += sub.units
+                if sub.failures:
+                    break
+            else:
+                out.labels.append("load-by-name-checked")
     finally:
         boot.rm(folder)
     return out
